@@ -16,6 +16,8 @@ val compOpp : comparison -> comparison
 
 val add : nat -> nat -> nat
 
+val mul : nat -> nat -> nat
+
 val sub : nat -> nat -> nat
 
 val eqb : bool -> bool -> bool
@@ -32,6 +34,8 @@ module Nat :
  end
 
 val remove : ('a1 -> 'a1 -> bool) -> 'a1 -> 'a1 list -> 'a1 list
+
+val count_occ : ('a1 -> 'a1 -> bool) -> 'a1 list -> 'a1 -> nat
 
 val existsb : ('a1 -> bool) -> 'a1 list -> bool
 
@@ -225,7 +229,8 @@ val act0 : act
 
 val init : bool -> st
 
-type ast = { ms : st; chain : nat list; pend : nat list; pobj : z; robj : z }
+type ast = { ms : st; chain : nat list; pend : nat list; pobj : z; robj : 
+             z; gens : nat list }
 
 val pc_eqb : pc -> pc -> bool
 
@@ -273,6 +278,8 @@ val with_chain : ast -> nat list -> ast
 
 val with_pend : ast -> nat list -> ast
 
+val with_gens : ast -> nat list -> ast
+
 val take : ast -> bool -> action -> (st -> bool) -> ast option
 
 val observe : ast -> bool -> ast option
@@ -290,6 +297,10 @@ val at_ru : pc -> bool
 val zcnt : st -> z
 
 val accept_kind : ast -> ek -> nat -> z -> z -> ast option
+
+val gen_of : ast -> nat -> nat
+
+val mactor : ast -> nat -> nat
 
 val accept_ev : ast -> z list -> ast option
 
